@@ -4,7 +4,7 @@
    theorem do without a lexical hypothesis.) *)
 From Coq Require Import List String NArith ZArith Bool Arith Lia.
 From EvyV Require Import Base FmtAst Format FormatProofs Pratt PrattProofs Parser ParserProofs ParserRules ParserScope
-  FormatParse FormatParseProofs FormatParseListProofs FormatParseStmtProofs FormatParseBlockProofs.
+  FormatParse FormatParseProofs FormatParseListProofs FormatParseStmtProofs FormatParseTargetProofs FormatParseBlockProofs.
 From EvyV.Gen Require Import Prec.
 Import ListNotations.
 Local Open Scope nat_scope.
@@ -188,8 +188,19 @@ Section Plain.
     { intros fr G x t ty Hx _ _ lvl. cbn [fmt_stmt]. unfold write_decl, write_comment. cbn [is_empty]. pl; [apply ident_plain, Hx | apply fmt_type_plain]. }
     assert (C2 : forall fr G x v, ident_text x = true -> declare (tabs_of B F) false x G <> None -> top_ok (envG B F G) v -> PL_sok fr G (FmtAst.SInferredDecl x v [])).
     { intros fr G x v Hx _ Hv lvl. cbn [fmt_stmt]. unfold write_comment. cbn [is_empty]. pl; [apply ident_plain, Hx | eapply top_plain; eassumption]. }
-    assert (C3 : forall fr G x v, ident_text x = true -> mem_str x (map fst F) = false -> cvisible x G = true -> top_ok (envG B F G) v -> PL_sok fr G (FmtAst.SAssign (FVar x) v [])).
-    { intros fr G x v Hx _ _ Hv lvl. cbn [fmt_stmt fmt_expr]. unfold write_comment. cbn [is_empty]. pl; [apply ident_plain, Hx | eapply top_plain; eassumption]. }
+    assert (Ctgt : forall G t x steps lvl, tgt_split t = Some (x, steps) -> ident_text x = true -> Forall (step_ok (envG B F G)) steps ->
+                 allp (fmt_expr fx lvl t)).
+    { intros G. induction t; intros x steps lvl Hsp Hx Hst; cbn [tgt_split] in Hsp; try discriminate Hsp.
+      - injection Hsp as <- <-. cbn [fmt_expr forallb plainp]. rewrite (ident_plain _ Hx). reflexivity.
+      - destruct (tgt_split t1) as [[x' st']|] eqn:E1; [|discriminate Hsp]. injection Hsp as <- <-.
+        apply Forall_app in Hst as [Hst1 Hst2]. inversion Hst2 as [|? ? Hi _]; subst. cbn [step_ok] in Hi. cbn [fmt_expr].
+        pl; [eapply IHt1; eauto | eapply top_plain; eassumption].
+      - destruct (tgt_split t) as [[x' st']|] eqn:E1; [|discriminate Hsp]. injection Hsp as <- <-.
+        apply Forall_app in Hst as [Hst1 Hst2]. inversion Hst2 as [|? ? Hk _]; subst. cbn [step_ok] in Hk. cbn [fmt_expr].
+        pl; [eapply IHt; eauto | apply key_plain, Hk]. }
+    assert (C3 : forall fr G t x steps v, tgt_split t = Some (x, steps) -> ident_text x = true -> mem_str x (map fst F) = false -> cvisible x G = true ->
+                 Forall (step_ok (envG B F G)) steps -> top_ok (envG B F G) v -> PL_sok fr G (FmtAst.SAssign t v [])).
+    { intros fr G t x steps v Hsp Hx _ _ Hst Hv lvl. cbn [fmt_stmt]. unfold write_comment. cbn [is_empty]. pl; [eapply Ctgt; eassumption | eapply top_plain; eassumption]. }
     assert (C4 : forall fr G n args fi, ident_text n = true -> lookup_fn n F = Some fi -> arity_wrong (envG B F G) n (List.length args) = false ->
                  Forall (item_ok (envG B F G) true) args -> PL_sok fr G (FmtAst.SCall n args [])).
     { intros fr G n args fi Hn _ _ Hall lvl. cbn [fmt_stmt]. unfold write_comment, fmt_call. cbn [is_empty]. pl; [apply ident_plain, Hn|].
